@@ -120,6 +120,14 @@ func orderCases() []orderCase {
 	add("infix-chain", "§0 + §1 * §2 - §3", "1", "2", "3", "4")
 	// keyword arguments written between positionals: positionals in order, then keywords in order
 	cs = append(cs, orderCase{Name: "call-kwargs-interleaved", Src: "ff(k: t(0, 1), t(1, 2), j: t(2, 3), t(3, 4))", Order: []string{"t1", "t3", "t0", "t2"}})
+	// calls written over several lines (a later line may start in a smaller column)
+	cs = append(cs, orderCase{Name: "call-kwargs-multiline-dedent", Src: "ff(1, k: t(0, 1),\n  j: t(1, 2),\ni: t(2, 3))", Order: seq(3)})
+	cs = append(cs, orderCase{Name: "call-kwargs-multiline-indent", Src: "ff(1,\n k: t(0, 1),\n    j: t(1, 2),\n        i: t(2, 3))", Order: seq(3)})
+	cs = append(cs, orderCase{Name: "call-args-multiline", Src: "ff(t(0, 1),\nt(1, 2),\n        t(2, 3), k: t(3, 4),\nj: t(4, 5))", Order: seq(5)})
+	cs = append(cs, orderCase{Name: "kwarg-defaults-multiline-dedent", Src: "{|a, k: t(0, 1),\n  j: t(1, 2),\ni: t(2, 3)| a}", Order: seq(3)})
+	cs = append(cs, orderCase{Name: "arr-multiline", Src: "[t(0, 1),\nt(1, 2),\n     t(2, 3)]", Order: seq(3)})
+	cs = append(cs, orderCase{Name: "obj-multiline-dedent", Src: "{a: t(0, 1),\n      b: t(1, 2),\nc: t(2, 3)}", Order: seq(3)})
+	cs = append(cs, orderCase{Name: "map-multiline-dedent", Src: "%{1: t(0, 1),\n      2: t(1, 2),\n3: t(2, 3)}", Order: seq(3)})
 	// pairs with computed keys: successive pairs are ordered, key/value inside a pair are not
 	cs = append(cs, orderCase{Name: "obj-key-value-pairs", Src: `{t(0, "a"): t(1, 1), t(2, "b"): t(3, 2), t(4, "c"): t(5, 3)}`, Order: seq(6),
 		Partial: [][2]int{{0, 2}, {0, 3}, {1, 2}, {1, 3}, {2, 4}, {2, 5}, {3, 4}, {3, 5}}})
@@ -209,6 +217,9 @@ type prog struct {
 var programs = []prog{
 	{Name: "kwargs-traced", Src: "ff(1, k: t(1, \"k\"), j: t(2, \"j\"), i: t(3, \"i\"))"},
 	{Name: "kwargs-duplicate", Src: "ff(1, k: 1, k: 2, k: 3)"},
+	{Name: "kwargs-duplicate-multiline-dedent", Src: "ff(1, k: 1,\n  k: 2,\nk: 3)"},
+	{Name: "kwargs-traced-multiline-dedent", Src: "ff(1, k: t(1, \"k\"),\n  j: t(2, \"j\"),\ni: t(3, \"i\"))"},
+	{Name: "kwarg-default-duplicate-multiline", Src: "g := {|k: 1,\nk: 2| k}\ng()"},
 	{Name: "kwargs-duplicate-traced", Src: "ff(1, k: t(1, 1), k: t(2, 2))"},
 	{Name: "kwarg-defaults-traced", Src: "g := {|k: t(1, 1), j: t(2, 2), i: t(3, 3)| [k, j, i]}\ng()"},
 	{Name: "kwarg-default-duplicate", Src: "g := {|k: 1, k: 2| k}\ng()"},
